@@ -14,6 +14,7 @@ numpy / pandas code of pyins runs on them unmodified.
 from __future__ import annotations
 
 import math
+import contextlib
 import operator
 from fractions import Fraction
 
@@ -682,6 +683,55 @@ def _is_c(n, v=None):
     return n[0] == "const" and (v is None or n[1] == v)
 
 
+MAYBE_NONFINITE = set()        # names of leaves that may be NaN / +-inf (values SUPPLIED by a caller about which the contract
+_MNF_MEMO = {}                 # assumes nothing): the finite-only rewrites x*0 -> 0, x-x -> 0 are not applied to what depends on them
+
+
+def maybe_nonfinite(n):
+    if not MAYBE_NONFINITE:
+        return False
+    r = _MNF_MEMO.get(n)
+    if r is not None:
+        return r
+    stack = [n]
+    while stack:
+        m = stack[-1]
+        if m in _MNF_MEMO:
+            stack.pop()
+            continue
+        if m.items[0] == "leaf":
+            _MNF_MEMO[m] = m.items[1] in MAYBE_NONFINITE
+            stack.pop()
+            continue
+        if m.items[0] == "const":
+            v = m.items[1]
+            _MNF_MEMO[m] = isinstance(v, float) and (v != v or v in (float("inf"), float("-inf")))
+            stack.pop()
+            continue
+        kids = [c for c in m.items[1:] if isinstance(c, Node)]
+        todo = [c for c in kids if c not in _MNF_MEMO]
+        if todo:
+            stack.extend(todo)
+            continue
+        _MNF_MEMO[m] = any(_MNF_MEMO[c] for c in kids)
+        stack.pop()
+    return _MNF_MEMO[n]
+
+
+@contextlib.contextmanager
+def nonfinite_leaves(*names):
+    """within the block the named trace leaves may hold NaN / inf"""
+    old = set(MAYBE_NONFINITE)
+    MAYBE_NONFINITE.update(names)
+    _MNF_MEMO.clear()
+    try:
+        yield
+    finally:
+        MAYBE_NONFINITE.clear()
+        MAYBE_NONFINITE.update(old)
+        _MNF_MEMO.clear()
+
+
 class TSym(Sym):
     """Trace-domain scalar.  Rewrites applied (each exact in IEEE-754 for finite
     operands, up to the sign of zero):  x+0 -> x, 0+x -> x, x-0 -> x, 0-x -> -x, x*1 -> x,
@@ -703,18 +753,18 @@ class TSym(Sym):
             if _is_c(a[0], 0.0): return a[1]
             if _is_c(a[1], 0.0): return a[0]
             # x + (-x) = 0 exactly for finite x
-            if a[0][0] == "neg" and a[0][1] is a[1]: return T_ZERO
-            if a[1][0] == "neg" and a[1][1] is a[0]: return T_ZERO
+            if a[0][0] == "neg" and a[0][1] is a[1] and not maybe_nonfinite(a[1]): return T_ZERO
+            if a[1][0] == "neg" and a[1][1] is a[0] and not maybe_nonfinite(a[0]): return T_ZERO
         elif name == "sub":
             if _is_c(a[1], 0.0): return a[0]
-            if a[0] is a[1]: return T_ZERO
+            if a[0] is a[1] and not maybe_nonfinite(a[0]): return T_ZERO
             if _is_c(a[0], 0.0): return Node("neg", a[1])
         elif name == "neg":
             if a[0][0] == "neg": return a[0][1]
         elif name == "mul":
             if _is_c(a[0], 1.0): return a[1]
             if _is_c(a[1], 1.0): return a[0]
-            if _is_c(a[0], 0.0) or _is_c(a[1], 0.0): return T_ZERO
+            if (_is_c(a[0], 0.0) and not maybe_nonfinite(a[1])) or (_is_c(a[1], 0.0) and not maybe_nonfinite(a[0])): return T_ZERO
         elif name == "div":
             if _is_c(a[1], 1.0): return a[0]
         return Node(name, *a)
